@@ -248,6 +248,19 @@ def vectors(iw, rng, limit):
     if prod <= limit // 2:
         for v in itertools.product(*edge):
             vecs.add(tuple(v))
+    # operand pairs that differ in exactly one bit position / by exactly one power of two (carry chains, borrow chains,
+    # equality reductions over many bits: every bit position must matter), within a third of the budget
+    if len(iw) >= 2 and iw[0] > 1 and iw[1] > 1:
+        m0, m1 = (1 << iw[0]) - 1, (1 << iw[1]) - 1
+        rest = [rng.choice(e) for e in edge[2:]]
+        ks = list(range(min(iw[0], iw[1])))
+        rng.shuffle(ks)
+        for k in ks:
+            if len(vecs) >= limit // 3 + prod * (prod <= limit // 2):
+                break
+            x = rng.randrange(1 << iw[0])
+            for a_, b_ in ((x, (x + (1 << k))), (x, x ^ (1 << k)), ((x + (1 << k)), x), (1 << k, 0), (0, 1 << k)):
+                vecs.add(tuple([a_ & m0, b_ & m1] + rest))
     while len(vecs) < limit:
         vecs.add(tuple(rng.choice(e) if rng.random() < 0.4 else rng.randrange(1 << w) for e, w in zip(edge, iw)))
     return [list(v) for v in sorted(vecs)], False
